@@ -67,10 +67,15 @@ fn rand_batch<T: Tab + Send>(op: &Value, out: &mut Vec<Value>) {
         vec![(0..count).map(|_| draw_i()).collect()]
     } else {
         let barrier = std::sync::Arc::new(std::sync::Barrier::new(threads));
+        let w_index = std::sync::atomic::AtomicUsize::new(0);
         let handles: Vec<_> = (0..threads)
             .map(|_| {
                 let b = barrier.clone();
-                let w = warm.clone();
+                let mut w = warm.clone();
+                // "skew": thread t first makes t * skew draws of the batch's own size (threads that have consumed very
+                // different amounts of randomness must still be independent)
+                let skew = op.get("skew").and_then(|v| v.as_u64()).unwrap_or(0) as usize;
+                w.extend(std::iter::repeat(n).take(skew * w_index.fetch_add(1, std::sync::atomic::Ordering::SeqCst)));
                 std::thread::spawn(move || {
                     b.wait();
                     warm_up(&w);
